@@ -127,7 +127,7 @@ def run(ctx):
     # ------------------------------------------------------------------ R1
     if c25:
         r1 = ctx.tlc(sd, "MC_TxCache", cfg("r1.cfg", dict(STRUCT, configs="CfgC25Quick" if q else "CfgC25Thorough")),
-                     timeout=3000, coverage=not q)
+                     timeout=3000, coverage=not q, extra=None if q else ["-coverage", "100000"])
         if not q:   # three nonces (insertion in the middle, removal with the early stop), one price
             ctx.tlc(sd, "MC_TxCache", cfg("r1c.cfg", dict(STRUCT, nonces="0, 1, 2", prices="1")), timeout=3000)
         # selections, notifications and sweeps together with eviction (reduced transaction universe)
@@ -142,7 +142,8 @@ def run(ctx):
         lap("R1 (deviation)")
     else:
         r1 = ctx.tlc(sd, "MC_TxCache", cfg("r1.cfg", dict(SELECT, prices="1" if q else "1, 2",
-                                                        notify="0, 1" if q else "0, 1, 2")), timeout=3000, coverage=not q)
+                                                        notify="0, 1" if q else "0, 1, 2")), timeout=3000, coverage=not q,
+                     extra=None if q else ["-coverage", "100000"])
         lap("R1 (intended design)")
         rd = ctx.tlc(sd, "MC_TxCache", cfg("r1d.cfg", dict(SELECT, defects='"C26nonce0"')), timeout=900, count=False,
                      allow=("property", "invariant"))
@@ -188,7 +189,7 @@ def run(ctx):
         gen.update(configs="CfgC25Quick" if q else "CfgC25Thorough", ns="2", bs="1", notify="0",
                    nonces="0, 1", samplek=150 if q else 300)
     else:
-        gen.update(configs="CfgC26Evict", prices="1" if q else "1, 2", samplek=60 if q else 100)
+        gen.update(configs="CfgC26Evict", prices="1" if q else "1, 2", samplek=60 if q else 150)
     beh = ctx.path("edges.ndjson")
     g = ctx.tlc(sd, "MC_TxCache", cfg("gen.cfg", gen), timeout=1800, behaviours_out=beh, extra=["-seed", str(ctx.seed)])
     if g.ok and g.behaviours == 0:
@@ -208,7 +209,7 @@ def run(ctx):
                bs="0, 1, 2", notify="0, 1, 2", maxfailed=6, maxsweep=3,
                configs="CfgC25Thorough" if c25 else "CfgC26Evict")
     beh2 = ctx.path("sim.ndjson")
-    ctx.tlc(sd, "MC_TxCache", cfg("sim.cfg", sim), simulate=6 if q else 120, depth=30, timeout=900, behaviours_out=beh2)
+    ctx.tlc(sd, "MC_TxCache", cfg("sim.cfg", sim), simulate=6 if q else 60, depth=30, timeout=900, behaviours_out=beh2)
     thin(beh2, 25 if q else 40)   # TLC prints every last-step variant of a walk; keep one in 25/40
     n2, d2 = drive(beh2, "sim")
     # scenario family (random walks in a tiny universe where the pattern is frequent):
@@ -221,12 +222,12 @@ def run(ctx):
         scen = dict(sim, senders="1", nonces="1, 2, 4", prices="1", sizes="1", configs="CfgRollback", ns="3", bs="2",
                     notify="0, 1, 3", clear="FALSE", maxfailed=4, maxsweep=2)
     beh3 = ctx.path("scen.ndjson")
-    ctx.tlc(sd, "MC_TxCache", cfg("scen.cfg", scen), simulate=10 if q else 100, depth=30, timeout=900, behaviours_out=beh3)
+    ctx.tlc(sd, "MC_TxCache", cfg("scen.cfg", scen), simulate=10 if q else 40, depth=30, timeout=900, behaviours_out=beh3)
     thin(beh3, 6 if q else 10)
     n3, d3 = drive(beh3, "scen")
     lap("sim + scenario + replays (%d+%d+%d behaviours)" % (n1, n2, n3))
     # ------------------------------------------------------------------ R3: seeded random histories, larger universe
-    nt, ln = (20, 100) if q else (250, 200)
+    nt, ln = (20, 100) if q else (120, 150)
     rec = ctx.path("tr_random.ndjson")
     r3 = ctx.vh(exe, ["record", ctx.seed, nt, ln, rec, "sync"], count_samples=False)
     parts.append(rec)
@@ -244,26 +245,72 @@ def run(ctx):
         st2 = validate(ctx, sd, tr, nev, "TxCache history", nt, which="C25known")
         lap("class of C25evict1 (%s)" % st2)
     if not q and st == "accepted":
+        # binding self-tests.  Each corruption is applied to a pristine copy of the recorded trace (selftest_rejects
+        # overwrites trace.ndjson) and is one the respective configuration MUST reject:
+        #   strict: a call's logged result is changed            -> no action of the specification explains the event
+        #   obs:    the logged state breaks a predicate of the property (C25: a transaction disappears from the logged hash
+        #           index / a sender list is reversed; C26: a selected transaction is duplicated / the first one dropped)
         tc, oc = trace_cfgs(sd, ctx.prop)
+        src = ctx.path("selftest_src.ndjson")
+        with open(src, "w") as f:
+            f.write(open(tr).read())
+
+        def selftest(cfgname, corrupt):
+            evs = [json.loads(x) for x in open(src).read().splitlines() if x.strip()]
+            m = corrupt(evs)
+            if m is None:
+                ctx.broken.append("binding self-test: the recorded trace has no event to corrupt (%s)" % corrupt.__name__)
+                return
+            vlib.selftest_rejects(ctx, sd, "Trace_TxCache", cfgname, src, lambda _evs: m)
+
+        def wrong_result(evs):      # strict
+            for i, e in enumerate(evs):
+                if e["a"] == "AddTx" and e["out"].get("added"):
+                    e["out"]["added"] = False
+                    return evs[:i + 1]
+                if e["a"] == "RemoveTx" and e["out"].get("ok"):
+                    e["out"]["ok"] = False
+                    return evs[:i + 1]
+            return None
+
+        def hash_index_loses_tx(evs):       # obs, C25
+            for i, e in enumerate(evs):
+                if e["a"] == "AddTx" and len(e["st"]["bh"]) >= 2:
+                    e["st"]["bh"] = e["st"]["bh"][1:]
+                    return evs[:i + 1]
+            return None
+
+        def list_reversed(evs):             # obs, C25
+            for i, e in enumerate(evs):
+                for l in e["st"]["ls"]:
+                    if len(l["txs"]) >= 2 and l["txs"][0]["n"] != l["txs"][-1]["n"]:
+                        l["txs"] = list(reversed(l["txs"]))
+                        return evs[:i + 1]
+            return None
+
+        def selected_twice(evs):            # obs, C26
+            for i, e in enumerate(evs):
+                if e["a"] == "Select" and len(e["out"]["txs"]) >= 1 and e["in"]["n"] > len(e["out"]["txs"]):
+                    e["out"]["txs"] = e["out"]["txs"] + [e["out"]["txs"][0]]
+                    return evs[:i + 1]
+            return None
+
+        def first_selected_dropped(evs):    # obs, C26
+            for i, e in enumerate(evs):
+                if e["a"] == "Select" and len(e["out"]["txs"]) >= 2:
+                    s0 = e["out"]["txs"][0]["s"]
+                    if sum(1 for x in e["out"]["txs"] if x["s"] == s0) >= 2:
+                        e["out"]["txs"] = e["out"]["txs"][1:]
+                        return evs[:i + 1]
+            return None
+        selftest(tc, wrong_result)
         if c25:
-            def corrupt(evs):   # a sender's list loses its order / a transaction stays in the hash index only
-                for e in evs:
-                    for l in e["st"]["ls"]:
-                        if len(l["txs"]) >= 2 and l["txs"][0]["n"] != l["txs"][-1]["n"]:
-                            l["txs"] = list(reversed(l["txs"]))
-                            return evs[:evs.index(e) + 1]
-                return evs[:-1]
+            selftest(oc, hash_index_loses_tx)
+            selftest(oc, list_reversed)
         else:
-            def corrupt(evs):   # a selection that skips the first transaction of a sender
-                for e in evs:
-                    if e["a"] == "Select" and len(e["out"]["txs"]) >= 2:
-                        s0 = e["out"]["txs"][0]["s"]
-                        if sum(1 for x in e["out"]["txs"] if x["s"] == s0) >= 2:
-                            e["out"]["txs"] = e["out"]["txs"][1:]
-                            return evs[:evs.index(e) + 1]
-                return evs[:-1]
-        vlib.selftest_rejects(ctx, sd, "Trace_TxCache", tc, tr, corrupt)
-        vlib.selftest_rejects(ctx, sd, "Trace_TxCache", oc, tr, corrupt)
+            selftest(oc, selected_twice)
+            selftest(oc, first_selected_dropped)
+        lap("binding self-tests")
     ctx.cov(rule="every history is executed on the real TxCache and the recorded trace (result + sender lists in order, hash "
                  "index by lookup, the three counters, account nonces, failed-selection counters, sweepable flags, sweep "
                  "list after EVERY call) is validated by TLC against specs/TxCache with the %s invariants evaluated on every "
